@@ -71,25 +71,38 @@ class Grid(col.MutableSequence):
 
     @staticmethod
     def _approx_check(v1, v2):
-        # Check types match
-        if isinstance(v1, datetime.time):
-            return v1.replace(microsecond=0) == v2.replace(microsecond=0)
-        elif isinstance(v1, datetime.datetime):
-            return v1.tzinfo == v2.tzinfo and \
+        # Kinds must match before any kind-specific comparison is attempted
+        if isinstance(v1, datetime.time) or isinstance(v2, datetime.time):
+            return isinstance(v1, datetime.time) and \
+                   isinstance(v2, datetime.time) and \
+                   v1.replace(microsecond=0) == v2.replace(microsecond=0)
+        elif isinstance(v1, datetime.datetime) or \
+                isinstance(v2, datetime.datetime):
+            return isinstance(v1, datetime.datetime) and \
+                   isinstance(v2, datetime.datetime) and \
+                   v1.utcoffset() == v2.utcoffset() and \
                    v1.date() == v2.date() and \
                    Grid._approx_check(v1.time(), v2.time())
-        elif isinstance(v1, Quantity):
-            return v1.unit == v2.unit and \
+        elif isinstance(v1, Quantity) or isinstance(v2, Quantity):
+            return isinstance(v1, Quantity) and \
+                   isinstance(v2, Quantity) and \
+                   v1.unit == v2.unit and \
                    Grid._approx_check(v1.value, v2.value)
-        elif isinstance(v1, Coordinate):
-            return Grid._approx_check(v1.latitude, v2.latitude) and \
+        elif isinstance(v1, Coordinate) or isinstance(v2, Coordinate):
+            return isinstance(v1, Coordinate) and \
+                   isinstance(v2, Coordinate) and \
+                   Grid._approx_check(v1.latitude, v2.latitude) and \
                    Grid._approx_check(v1.longitude, v2.longitude)
         elif isinstance(v1, float) or isinstance(v2, float):
-            return abs(v1 - v2) < 0.000001
+            return isinstance(v1, numbers.Number) and \
+                   isinstance(v2, numbers.Number) and \
+                   abs(v1 - v2) < 0.000001
         else:
             return v1 == v2
 
     def __eq__(self, other):
+        if not isinstance(other, Grid):
+            return NotImplemented
         if set(self.metadata.keys()) != set(other.metadata.keys()):
             return False
         for key in self.metadata.keys():
@@ -104,7 +117,8 @@ class Grid(col.MutableSequence):
                     len(self.column[col]) != len(other.column[col]):
                 return False
             for key in self.column[col].keys():
-                if not Grid._approx_check(self.column[col][key], other.column[col][key]):
+                if key not in other.column[col] or \
+                        not Grid._approx_check(self.column[col][key], other.column[col][key]):
                     return False
         # Check row matches
         if len(self) != len(other):
